@@ -31,11 +31,19 @@ import (
 func init() { RegisterSub("C03", "nullscan", RunC03NullScan) }
 
 // c03nsRule is appended to the rule text of the property by C03/paths (the last sub-check to run).
-const c03nsRule = "C03/nullscan: (element kind: every entry of the null-index dispatch table - bool, int8/16/32/64, int, uint8/16/32/64, uint, float32/64, string, []byte, [5]byte, [16]byte, Int96, pointer, map, time.Time - with non-null values whose low or high bytes are zero; dense or strided rows) x null pattern: every bit pattern of length <= 12 placed at every offset 0..66 behind a constant or alternating filler, with and without rows after it, and random run-length patterns up to 1400 rows whose run boundaries sit at and around multiples of 64 and 8; non-trivial = the batch holds both a null and a non-null row"
+const c03nsRule = "C03/nullscan: (element kind: every entry of the null-index dispatch table - bool, int8/16/32/64, int, uint8/16/32/64, uint, float32/64, string, []byte, [5]byte, [16]byte, Int96, pointer, map, time.Time, non-pointer struct (null = the zero struct) - with non-null values whose low or high bytes are zero; dense or strided rows) x null pattern: every bit pattern of length <= 12 placed at every offset 0..66 behind a constant or alternating filler, with and without rows after it, and random run-length patterns up to 1400 rows whose run boundaries sit at and around multiples of 64 and 8; non-trivial = the batch holds both a null and a non-null row"
 
-// every entry of the nullIndexFuncOf dispatch table (null.go) except struct (never null)
+// every entry of the nullIndexFuncOf dispatch table (null.go)
 var c03nsKinds = []string{"int32", "int64", "float32", "float64", "string", "bool", "bytes16",
-	"int8", "int16", "uint8", "uint16", "uint32", "uint64", "int", "uint", "bytes5", "int96", "bytes", "pointer", "map", "time"}
+	"int8", "int16", "uint8", "uint16", "uint32", "uint64", "int", "uint", "bytes5", "int96", "bytes", "pointer", "map", "time", "struct"}
+
+// c03nsStruct: a non-pointer struct on an optional field; its zero value is the null
+type c03nsStruct struct {
+	A int32
+	S string
+	P *int32
+	L []int32
+}
 
 type c03nsCase struct {
 	kind    string
@@ -100,6 +108,9 @@ var (
 	c03nsMap = []map[string]int32{{}, {"a": 1}, {"": 0}}
 	// time.Time: the zero instant is null; the epoch, one nanosecond after the zero instant (only
 	// the nanosecond field of the struct differs from zero) and instants with a location are values
+	// non-pointer struct: values that differ from the zero struct in one field only, incl. the
+	// last one and an empty non-nil slice
+	c03nsStr4 = []c03nsStruct{{A: 1}, {S: "x"}, {P: &c03nsZer}, {L: []int32{}}, {A: -1, S: "y", L: []int32{0}}}
 	c03nsTim = []time.Time{time.Unix(0, 0).UTC(), time.Time{}.Add(1), time.Unix(1700000000, 5).In(time.FixedZone("x", 3600)), time.Time{}.Add(time.Second)}
 )
 
@@ -138,6 +149,7 @@ var c03nsImpl = map[string]c03nsKindImpl{
 	"uint64": c03nsKindOf(c03nsU64), "int": c03nsKindOf(c03nsInt), "uint": c03nsKindOf(c03nsUin),
 	"bytes5": c03nsKindOf(c03nsB5), "int96": c03nsKindOf(c03nsI96), "bytes": c03nsKindOf(c03nsByt),
 	"pointer": c03nsKindOf(c03nsPtr), "map": c03nsKindOf(c03nsMap), "time": c03nsKindOf(c03nsTim),
+	"struct": c03nsKindOf(c03nsStr4),
 }
 
 func c03nsWords(pat []bool) []uint64 {
